@@ -426,6 +426,10 @@ protected:
           Add()           // Just add next node -
     };                    // assume the constraint order in NL
     auto e = GetModel().logical_con(i);
+    if (!e.expr())             // no L segment for it in the NL file
+      MP_RAISE("Logical constraint _slogcon["
+               + std::to_string(i+1)
+               + "] has no expression");
     const auto resvar = MP_DISPATCH( Convert2Var(e.expr()) );
     if (GetFlatCvt().is_fixed(resvar)) {
       if (0==GetFlatCvt().fixed_value(resvar)) {
